@@ -30,15 +30,17 @@ from harness.common import Ctx, Part, lean_batch, load_corpus, pmap
 THEOREMS = [
     "IrVerif.Scope.C17_total",
     "IrVerif.Scope.C17_consistent",
-    "IrVerif.Scope.C17_idempotent_partial",
+    "IrVerif.Scope.C17_idempotent",
+    "IrVerif.Scope.C17_consistent_is_WF",
+    "IrVerif.Scope.C17_deserialize_WF",
 ]
 ASSUMPTIONS = [
     "byte-level parsing is protobuf's; Python RecursionError counts as 'raises'",
     "value-info content (type, shape, doc_string) and tensor payloads are opaque tokens in the model; "
     "metadata_props merge, quantization annotations, device configurations, functions are oracle-only",
-    "C17_idempotent_partial is proved for protos whose deserialized IR satisfies Serializable (SSA names, "
-    "no dangling references); for every other generated proto the fix-point is checked on the real code by "
-    "the oracle and on the model by running serialize . deserialize twice (counter model_not_fixpoint)",
+    "C17_idempotent is proved for every proto of the model (dangling / duplicate / shadowed names, "
+    "placeholders, unproduced outputs included); the model's serialize . deserialize is also run twice on "
+    "every generated proto (counter model_not_fixpoint must stay 0) and the oracle checks the real code",
     "audit events are those CPython raises for open/os.*/mmap/shutil/tempfile/glob/pathlib",
 ]
 
@@ -512,8 +514,13 @@ def diff_case(part, out: dict, case, flags, model, err, q) -> None:
                     break
         part.disagree(what, case, mod, real)
         return
-    if out.get("ser2_ok") and out.get("q") != out.get("q2"):
+    if not out.get("ser_ok") or not out.get("deser2_ok") or not out.get("ser2_ok") or out.get("q") != out.get("q2"):
+        # C17_idempotent is a theorem about the model: the driver contradicting it means the executable is
+        # not the model the proofs are about
         part.count("model_not_fixpoint")
+        part.disagree("model: serialize(deserialize(serialize(deserialize p))) is not the first serialization",
+                      case, out.get("q2"), out.get("q"))
+        return
     # serialization of the deserialized IR
     if q is None:
         part.count("to_proto_raised_outside_model")  # e.g. an UNDEFINED attribute: nothing name-related
